@@ -18,6 +18,8 @@ func genRoundLock(facts map[string]interface{}) string {
 		writes     bool // calls s.fsmService.SaveFSM
 		locksFirst bool // s.roundsMu.Lock() textually before its first SaveFSM (or before anything, if it does not write)
 		calls      []string
+		posts      bool // calls s.storage.Send
+		unlocks    bool // lets s.roundsMu go (a call of Unlock that is not deferred) before its last SaveFSM
 	}
 	fns := map[string]*fn{}
 	for _, f := range nd.files {
@@ -34,8 +36,13 @@ func genRoundLock(facts map[string]interface{}) string {
 				continue
 			}
 			e := &fn{name: fd.Name.Name}
-			lockPos, writePos := -1, -1
+			lockPos, writePos, lastWritePos := -1, -1, -1
+			deferred := map[ast.Node]bool{}
+			var unlocks []int // positions of s.roundsMu.Unlock() calls that are not deferred
 			ast.Inspect(fd.Body, func(n ast.Node) bool {
+				if d, ok := n.(*ast.DeferStmt); ok {
+					deferred[d.Call] = true
+				}
 				if c, ok := n.(*ast.CallExpr); ok {
 					name := exprStr(c.Fun)
 					switch {
@@ -43,8 +50,15 @@ func genRoundLock(facts map[string]interface{}) string {
 						if lockPos < 0 {
 							lockPos = int(c.Pos())
 						}
+					case name == "s.roundsMu.Unlock":
+						if !deferred[c] {
+							unlocks = append(unlocks, int(c.Pos()))
+						}
+					case name == "s.storage.Send":
+						e.posts = true
 					case name == "s.fsmService.SaveFSM":
 						e.writes = true
+						lastWritePos = int(c.Pos())
 						if writePos < 0 {
 							writePos = int(c.Pos())
 						}
@@ -55,6 +69,18 @@ func genRoundLock(facts map[string]interface{}) string {
 				return true
 			})
 			e.locksFirst = lockPos >= 0 && (writePos < 0 || lockPos < writePos)
+			// the lock is held from there to the last write: no Unlock in between (a round read under the lock, the lock
+			// let go for a slow step and taken again before the write, is a read-modify-write over two critical sections)
+			unlockedBeforeWrite := false
+			for _, u := range unlocks {
+				if u < lastWritePos {
+					unlockedBeforeWrite = true
+				}
+			}
+			e.unlocks = unlockedBeforeWrite
+			if unlockedBeforeWrite {
+				e.locksFirst = false
+			}
 			fns[e.name] = e
 		}
 	}
@@ -73,7 +99,7 @@ func genRoundLock(facts map[string]interface{}) string {
 	for changed := true; changed; {
 		changed = false
 		for name := range fns {
-			if guarded[name] || len(callers[name]) == 0 {
+			if guarded[name] || len(callers[name]) == 0 || fns[name].unlocks {
 				continue
 			}
 			all := true
@@ -88,6 +114,53 @@ func genRoundLock(facts map[string]interface{}) string {
 			}
 		}
 	}
+	// executeOperation: the calls that look the operation up, post its result and retire it, and the calls on answerMu, in
+	// textual order
+	var answerSteps []string
+	for _, f := range nd.files {
+		for _, d := range f.Decls {
+			fd, ok := d.(*ast.FuncDecl)
+			if !ok || fd.Body == nil || fd.Recv == nil || fd.Name.Name != "executeOperation" {
+				continue
+			}
+			deferred := map[ast.Node]bool{}
+			ast.Inspect(fd.Body, func(n ast.Node) bool {
+				if d, ok := n.(*ast.DeferStmt); ok {
+					deferred[d.Call] = true
+				}
+				if c, ok := n.(*ast.CallExpr); ok {
+					switch name := exprStr(c.Fun); name {
+					case "s.answerMu.Lock":
+						answerSteps = append(answerSteps, "answerMu.Lock")
+					case "s.answerMu.Unlock":
+						if deferred[c] {
+							answerSteps = append(answerSteps, "defer answerMu.Unlock")
+						} else {
+							answerSteps = append(answerSteps, "answerMu.Unlock")
+						}
+					case "s.opService.GetOperationByID":
+						answerSteps = append(answerSteps, "lookup")
+					case "s.storage.Send":
+						answerSteps = append(answerSteps, "post")
+					case "s.opService.DeleteOperation":
+						answerSteps = append(answerSteps, "retire")
+					default:
+						// a helper of the service that posts (any other method that calls s.storage.Send)
+						if strings.HasPrefix(name, "s.") && strings.Count(name, ".") == 1 {
+							if h, ok := fns[strings.TrimPrefix(name, "s.")]; ok && h.posts {
+								answerSteps = append(answerSteps, "post")
+							}
+						}
+					}
+				}
+				return true
+			})
+		}
+	}
+	if len(answerSteps) == 0 {
+		die("client/services/node: executeOperation not found or makes none of the calls looked for")
+	}
+	facts["answer_steps"] = answerSteps
 	var rows [][2]string
 	for _, e := range fns {
 		if e.writes {
@@ -109,6 +182,14 @@ func genRoundLock(facts map[string]interface{}) string {
 			b.WriteString(", ")
 		}
 		fmt.Fprintf(&b, "(%s, %s)", leanStr(r[0]), r[1])
+	}
+	b.WriteString("]\n\n/-- `executeOperation`, in textual order: its calls on `answerMu`, the lookup of the stored operation, the posting of the\nresult's messages (directly or through a helper of the service), the retiring of the operation -/\n")
+	b.WriteString("def answerSteps : List String := [")
+	for i, a := range answerSteps {
+		if i > 0 {
+			b.WriteString(", ")
+		}
+		b.WriteString(leanStr(a))
 	}
 	b.WriteString("]\n\nend Dc4bcVerif.Gen.RoundLock\n")
 	return b.String()
